@@ -798,8 +798,8 @@ pub fn build_sysloc(op: &Op) -> (hmat::SystemLocality, usize, usize) {
         10 => Size32k,
         _ => Size64k,
     };
-    let i = (op.arg(4) % 24) as usize;
-    let t = (op.arg(5) % 24) as usize;
+    let i = (op.arg(4) % 301) as usize;
+    let t = (op.arg(5) % 301) as usize;
     let mut s = hmat::SystemLocality::new(lt, dt, mts, op.arg(3), i, t);
     for o in &op.s {
         match o.k {
